@@ -8,6 +8,9 @@ pub fn run(kind: &str, job: &Value) -> Value {
     if let Some(v) = crate::c13::run(kind, job) {
         return v;
     }
+    if let Some(v) = crate::c14h::run(kind, job) {
+        return v;
+    }
     if let Some(v) = crate::c15::run(kind, job) {
         return v;
     }
